@@ -49,11 +49,12 @@ func TestVerifC13Race(t *testing.T) {
 			desc     []string
 			nops     int
 			focus    bool
+			id       int
 		}
 		ws := make([]*worker, nw)
 		for w := range ws {
 			wk := &worker{se: &cfsSess{t: t, fs: fs, mb: mb, prefix: fmt.Sprintf("w%d/", w), tagset: map[string]bool{}},
-				r: vCaseRand(seed*31+uint64(w)+1, i), nops: 5 + r.Intn(maxops), focus: r.Bool()}
+				r: vCaseRand(seed*31+uint64(w)+1, i), nops: 5 + r.Intn(maxops), focus: r.Bool(), id: w}
 			if i%3 == 2 {
 				wk.se.churn, wk.focus = true, false
 			}
@@ -66,6 +67,19 @@ func TestVerifC13Race(t *testing.T) {
 			wk.desc = append(wk.desc, "mkdir "+dir)
 			ws[w] = wk
 		}
+		// a log shared by all workers: each appends its own records through its own O_APPEND handle
+		// while the others write and the savers hold locks; appends are atomic steps, so the final
+		// content must be some interleaving of all records (checked below, after the history)
+		const nrec = 6
+		sharedOK := fs.Mkdir("shared", 0755) == nil
+		if sharedOK {
+			if f, err := fs.OpenFile("shared/log", os.O_CREATE|os.O_WRONLY, 0644); err != nil {
+				sharedOK = false
+			} else {
+				f.Close()
+			}
+		}
+		var appendErr error
 		var wg sync.WaitGroup
 		churnHist := i%3 == 2
 		stop := make(chan struct{})
@@ -82,6 +96,18 @@ func TestVerifC13Race(t *testing.T) {
 					wk.obs = append(wk.obs, ob)
 					wk.desc = append(wk.desc, d+" => "+ob)
 					wk.mu.Unlock()
+				}
+				if sharedOK {
+					if lf, err := fs.OpenFile("shared/log", os.O_WRONLY|os.O_APPEND, 0); err == nil {
+						for k := 0; k < nrec; k++ {
+							if _, err := lf.Write([]byte{0xF0, byte(wk.id), byte(k), 0x0F}); err != nil {
+								saveMtx.Lock()
+								appendErr = err
+								saveMtx.Unlock()
+							}
+						}
+						lf.Close()
+					}
 				}
 				if wk.se.churn {
 					// rename storm: a directory bounces between two sibling directories of this worker
@@ -163,6 +189,11 @@ func TestVerifC13Race(t *testing.T) {
 			kc.mtx.Lock()
 			kc.mode = 0
 			kc.mtx.Unlock()
+			if sharedOK && appendErr == nil {
+				if msg := c13CheckLog(fs, nw, nrec); msg != "" {
+					saveErr = fmt.Errorf("%s", msg)
+				}
+			}
 			txt, err := fs.MarshalManifest(".")
 			if err != nil {
 				saveErr = fmt.Errorf("final save: %v", err)
@@ -213,4 +244,35 @@ func TestVerifC13Race(t *testing.T) {
 		}
 	}
 	cs.Write()
+}
+
+// c13CheckLog reads shared/log and checks that it consists of exactly the records the workers
+// appended (4 bytes each: F0, worker, sequence number, 0F), each once, each worker's in order.
+func c13CheckLog(fs CollectionFileSystem, nw, nrec int) string {
+	f, err := fs.OpenFile("shared/log", os.O_RDONLY, 0)
+	if err != nil {
+		return "shared log: " + err.Error()
+	}
+	defer f.Close()
+	var data []byte
+	buf := make([]byte, 64)
+	for {
+		n, err := f.Read(buf)
+		data = append(data, buf[:n]...)
+		if err != nil {
+			break
+		}
+	}
+	if len(data) != 4*nw*nrec {
+		return fmt.Sprintf("LOST-APPEND: shared log has %d bytes, %d workers appended %d records of 4 bytes each", len(data), nw, nrec)
+	}
+	next := make([]int, nw)
+	for p := 0; p < len(data); p += 4 {
+		w, k := int(data[p+1]), int(data[p+2])
+		if data[p] != 0xF0 || data[p+3] != 0x0F || w >= nw || next[w] != k {
+			return fmt.Sprintf("LOST-APPEND: shared log is not an interleaving of the appended records (offset %d: % x)", p, data[p:p+4])
+		}
+		next[w]++
+	}
+	return ""
 }
